@@ -211,3 +211,5 @@ class Nameplate:
     S5B.upon(lost, enter=S5A, outputs=[])
     S5.upon(release, enter=S5, outputs=[])  # mailbox is lazy
     S5.upon(close, enter=S5, outputs=[])
+    # we were closed before the application finished entering its code
+    S5.upon(_set_nameplate, enter=S5, outputs=[])
